@@ -16,8 +16,25 @@ import (
 type C05Case struct {
 	Kind  string  `json:"kind"` // notation | transpose
 	Items []PItem `json:"items"`
-	Key   string  `json:"key"`            // notation: key of the note-name rendering; transpose: first key
-	Key2  string  `json:"key2,omitempty"` // transpose: second key
+	Key   string  `json:"key"`              // notation: key of the note-name rendering; transpose: first key
+	Key2  string  `json:"key2,omitempty"`   // transpose: second key
+	Debug bool    `json:"debug,omitempty"`  // notation: both conversions run with --debug (diagnostics on stderr, same result)
+	ToOut bool    `json:"to_out,omitempty"` // notation: both conversions write to -o FILE instead of stdout
+}
+
+// convRun runs one `text conv` the way the case says and returns it with the converted document in Stdout.
+func (c C05Case) convRun(text string, argv ...string) Result {
+	if c.Debug {
+		argv = append(argv, "--debug")
+	}
+	if !c.ToOut {
+		return crd(text, argv...)
+	}
+	res := Run{Argv: append(argv, "-o", "@conv.yml"), Stdin: text, OutArg: "conv.yml"}.Exec()
+	if res.Exit == 0 && len(res.Stdout) == 0 {
+		res.Stdout = res.OutFile
+	}
+	return res
 }
 
 func checkC05(c C05Case) *Violation {
@@ -29,8 +46,8 @@ func checkC05(c C05Case) *Violation {
 			return vio("harness", "progression not expressible in %s", c.Key)
 		}
 		syl := Render(ss, canonStyle{})
-		a := crd(deg, "text", "conv", "degree")
-		b := crd(syl, "text", "conv", "syllable", "--key", c.Key)
+		a := c.convRun(deg, "text", "conv", "degree")
+		b := c.convRun(syl, "text", "conv", "syllable", "--key", c.Key)
 		for _, x := range []Result{a, b} {
 			if v := cleanOutcome(x); v != nil {
 				return v
@@ -216,8 +233,14 @@ func TestC05(t *testing.T) {
 			key := rapid.SampledFrom(theory.ListedKeys).Draw(t, "key")
 			o := ProgOpts{MaxItems: pick(8, 20), Syllable: true, KeyChanges: 15, Settings: 10, Texts: 15, RestPct: 20, ExoticSyms: true}
 			ps := genProgression(o, key).Draw(t, "prog")
-			c := C05Case{Kind: "notation", Items: ps, Key: key}
+			c := C05Case{Kind: "notation", Items: ps, Key: key, Debug: coin(t, "with-debug", 15), ToOut: coin(t, "to-o-file", 15)}
 			nt, cls := c05Classes(ps, key)
+			if c.Debug {
+				cls = append(cls, "converted-with---debug")
+			}
+			if c.ToOut {
+				cls = append(cls, "converted-into--o-file")
+			}
 			r.Case("N"+key+Render(DegreeSentence(ps), canonStyle{}), nt, append(cls, "notation-equivalence")...)
 			if j == 0 {
 				ss, _ := SyllableSentence(ps, key)
